@@ -33,6 +33,7 @@ THEOREMS = ['Scalibr.Sbom.C15_spdx_partial', 'Scalibr.Sbom.C15_cdx_partial', 'Sc
             'Scalibr.Sbom.C15_unparsable_lost', 'Scalibr.Sbom.spdx_doc_import', 'Scalibr.Sbom.cdx_doc_import',
             'Scalibr.Sbom.specPurls_eq_specNorm', 'Scalibr.Sbom.lostOf_zero']
 
+FORMATS = ('spdx23-json', 'spdx23-yaml', 'spdx23-tag-value', 'cdx-json', 'cdx-xml')
 PER_PKG = 19   # tokens per package in a case line (lean/Drivers/C15.lean)
 
 
@@ -118,6 +119,31 @@ def run(ctx):
                 k = unhs(f[5]).lower()
                 types[k] = types.get(k, 0) + 1
         st = fi.get('st', fi.get('_'))
+        opts = t[2].split('~')[0].partition('@')[2].split(',')
+        if fmt.startswith('import:'):
+            # hand-written third-party style documents (CPE-only / two-purl SPDX packages, nested CycloneDX components): fixed expectations
+            if st != 'ok' or fi.get('got') != fi.get('want'):
+                return 'importing document %s returned %s (st=%s), expected %s  (name|purl per package)' % (fmt, unhs(fi.get('got', '-')), st, unhs(fi.get('want', '-')))
+            return None
+        if fmt not in FORMATS:
+            # stream cliflags, a format name the writers do not know: ValidateFlags must refuse it and nothing may be written
+            if fi.get('vf') != '0':
+                return 'cli.ValidateFlags accepts the output format %r, which neither binary/spdx nor binary/cdx can write (WriteScanResults: %s)' % (fmt, st)
+            if fi.get('created') == '1':
+                return 'WriteScanResults created a file for the unknown output format %r' % fmt
+            return None
+        if fi.get('vf') == '0' or st == 'flag-rejected':
+            if 'cfg4' in opts:
+                return None      # --spdx-creators without a colon: an invalid flag value may be refused
+            return 'cli.ValidateFlags refuses a supported export (-o %s=<path>, options %s)' % (fmt, ','.join(opts))
+        if 'isdir' in opts or 'nodir' in opts:
+            # the output path cannot be written (it is a directory / its directory is missing): the writer must say so
+            return None if st == 'write-err' else 'writing %s to an unwritable path (%s) did not fail: st=%s' % (fmt, 'isdir' if 'isdir' in opts else 'nodir', st)
+        if 'trunc' in opts:
+            # the written file cut in half: a JSON / XML importer must reject it; YAML / tag-value may reject it or read a prefix; nobody may crash
+            if st == 'read-err' or (st == 'ok' and fmt in ('spdx23-yaml', 'spdx23-tag-value')):
+                return None
+            return 'format %s: the importer answered st=%s on a file cut in half (expected a reader error)' % (fmt, st)
         if fi.get('mut') == '1':
             # "for every inventory" includes the one the previous export left behind: exporting must not modify the scan result
             return ('exporting as %s (after %s) MODIFIED the scan result: the packages of the ScanResult value are no longer the deep copy taken before the exports '
@@ -140,6 +166,8 @@ def run(ctx):
 
     def finding_class(case, fi, fm):
         t = case.split(' ')
+        if 'cfg4' in t[2].split('~')[0].partition('@')[2].split(',') and fi.get('st', fi.get('_')) == 'panic' and t[2].startswith('spdx23'):
+            return 'C15/cli-spdx-creators-without-colon-panics'   # class predicate: SPDX export through the cli with --spdx-creators lacking "TYPE:NAME"
         fmt, st = re.split('[~@]', t[2])[0], fi.get('st', fi.get('_'))
         judged['all'][fmt] = judged['all'].get(fmt, 0)   # (counted in classify)
         if fmt in ('spdx23-json', 'spdx23-yaml') and st == 'ok' and fi.get('purls') == fm.get('spec') and fm.get('specall') not in (None, fm.get('spec')) \
